@@ -193,7 +193,7 @@ func runC14(_ *testing.T, c c14Case) (out kit.Outcome) {
 	case "server", "client":
 		var opts []gcl.InterceptorOption
 		if c.Named {
-			opts = append(opts, gcl.WithName("n"), gcl.WithTags([]string{"a:b"}))
+			opts = append(opts, gcl.WithName("n"), gcl.WithTags([]string{"a:b"}), gcl.WithStreamTags([]string{"c:d"}))
 		}
 		if c.CustomLimiter {
 			opts = append(opts, gcl.WithLimiter(unary))
